@@ -96,31 +96,61 @@ impl Read for RingReader {
     }
 }
 
-/// Sink for ciphertext produced by the encryptor: forwards to the ring and runs the lag monitor.
+/// Record boundaries of the ciphertext stream as the encryptor wrote them (it may cut the plaintext into
+/// chunks of any size): a fixed-size table written by the encrypt-side sink and read by the decrypt-side
+/// sink, allocated before any measurement starts. Entry k % CAP = (k, end of plaintext chunk k, end of
+/// ciphertext record k in the stream).
+const TABLE_CAP: usize = 1 << 15;
+type Table = Arc<Mutex<Vec<(u64, u64, u64)>>>;
+
+/// Sink for ciphertext produced by the encryptor: forwards to the ring, parses the record headers it
+/// forwards, and runs the lag monitor: when the first byte of record k is written, how far beyond the end
+/// of plaintext chunk k the input had been consumed.
 struct EncSink {
     ring: RingWriter,
     written: u64,
     header: u64,
     consumed: std::rc::Rc<std::cell::Cell<u64>>,
-    chunk: u64,
     worst_lag: i64,
-    first_write_seen_for: u64,
+    table: Table,
+    hdr: [u8; 16],
+    hdr_fill: usize,
+    body_left: u64,
+    consumed_at_record_start: u64,
+    record: u64,
+    pt_end: u64,
 }
 
 impl Write for EncSink {
     fn write(&mut self, data: &[u8]) -> std::io::Result<usize> {
-        if self.written >= self.header && !data.is_empty() {
-            let rec = self.chunk + 32;
-            let idx = (self.written - self.header) / rec;
-            if idx >= self.first_write_seen_for {
-                // first byte of ciphertext record idx: input consumed so far vs the end of plaintext chunk idx
-                let lag = self.consumed.get() as i64 - ((idx + 1) * self.chunk) as i64;
+        let n = self.ring.write(data)?;
+        for &b in &data[..n] {
+            let pos = self.written;
+            self.written += 1;
+            if pos < self.header {
+                continue;
+            }
+            if self.body_left > 0 {
+                self.body_left -= 1;
+                continue;
+            }
+            if self.hdr_fill == 0 {
+                self.consumed_at_record_start = self.consumed.get();
+            }
+            self.hdr[self.hdr_fill] = b;
+            self.hdr_fill += 1;
+            if self.hdr_fill == 16 {
+                self.hdr_fill = 0;
+                let len = u32::from_be_bytes([self.hdr[12], self.hdr[13], self.hdr[14], self.hdr[15]]) as u64;
+                self.body_left = len + 16;
+                self.pt_end += len;
+                let lag = self.consumed_at_record_start as i64 - self.pt_end as i64;
                 self.worst_lag = self.worst_lag.max(lag);
-                self.first_write_seen_for = idx + 1;
+                let ct_end = self.written + self.body_left;
+                self.table.lock().unwrap()[(self.record as usize) % TABLE_CAP] = (self.record + 1, self.pt_end, ct_end);
+                self.record += 1;
             }
         }
-        let n = self.ring.write(data)?;
-        self.written += n as u64;
         Ok(n)
     }
     fn flush(&mut self) -> std::io::Result<()> {
@@ -128,26 +158,43 @@ impl Write for EncSink {
     }
 }
 
-/// Sink for plaintext produced by the decryptor: checks the pattern, discards, lag monitor.
+/// Sink for plaintext produced by the decryptor: checks the pattern, discards, lag monitor: when the
+/// first plaintext byte of record k is written, how far beyond the end of ciphertext record k the
+/// ciphertext had been consumed.
 struct DecSink {
     written: u64,
-    header: u64,
     consumed: Arc<AtomicU64>,
-    chunk: u64,
     worst_lag: i64,
-    next_chunk: u64,
+    table: Table,
+    record: u64,
+    record_pt_start: u64,
+    judged: u64,
+    unjudged: u64,
     mismatch: bool,
 }
 
 impl Write for DecSink {
     fn write(&mut self, data: &[u8]) -> std::io::Result<usize> {
         if !data.is_empty() {
-            let idx = self.written / self.chunk;
-            if idx >= self.next_chunk {
-                let rec_end = self.header + (idx + 1) * (self.chunk + 32);
-                let lag = self.consumed.load(Ordering::SeqCst) as i64 - rec_end as i64;
-                self.worst_lag = self.worst_lag.max(lag);
-                self.next_chunk = idx + 1;
+            // find the record that contains plaintext position `written`
+            loop {
+                let e = self.table.lock().unwrap()[(self.record as usize) % TABLE_CAP];
+                if e.0 != self.record + 1 {
+                    self.unjudged += 1;
+                    break;
+                }
+                if e.1 <= self.written {
+                    // record lies wholly before this position (or is empty): next
+                    self.record += 1;
+                    self.record_pt_start = e.1;
+                    continue;
+                }
+                if self.written == self.record_pt_start {
+                    let lag = self.consumed.load(Ordering::SeqCst) as i64 - e.2 as i64;
+                    self.worst_lag = self.worst_lag.max(lag);
+                    self.judged += 1;
+                }
+                break;
             }
         }
         for (i, b) in data.iter().enumerate() {
@@ -172,6 +219,8 @@ struct StreamReading {
     dec_lag: i64,
     ok: bool,
     detail: String,
+    records: u64,
+    unjudged: u64,
 }
 
 #[derive(Clone, Copy, PartialEq, Debug)]
@@ -197,12 +246,14 @@ fn stream(mode: Mode, len: u64, max_read: usize, seed: u64) -> StreamReading {
         Mode::Small(c) => (c as u64, 0u64),
     };
     let ring = Ring::new(512 * 1024);
+    let table: Table = Arc::new(Mutex::new(vec![(0u64, 0u64, 0u64); TABLE_CAP]));
+    let table2 = table.clone();
     let dec_consumed = Arc::new(AtomicU64::new(0));
     let ring2 = ring.clone();
     let dc = dec_consumed.clone();
     let dec_thread = std::thread::spawn(move || {
         let mut reader = RingReader { ring: ring2, consumed: dc.clone(), max_read };
-        let mut sink = DecSink { written: 0, header, consumed: dc, chunk, worst_lag: i64::MIN, next_chunk: 0, mismatch: false };
+        let mut sink = DecSink { written: 0, consumed: dc, worst_lag: i64::MIN, table: table2, record: 0, record_pt_start: 0, judged: 0, unjudged: 0, mismatch: false };
         allocmon::begin();
         let res: Result<(), String> = match mode {
             Mode::Key => key_decrypt(&mut reader, &mut sink, &sk(&r), &pk(&r_pub), AsymFileFormat::V1).map(|_| ()).map_err(|e| e.to_string()),
@@ -217,11 +268,11 @@ fn stream(mode: Mode, len: u64, max_read: usize, seed: u64) -> StreamReading {
                 break;
             }
         }
-        (m, sink.worst_lag, sink.written, sink.mismatch, res)
+        (m, sink.worst_lag, sink.written, sink.mismatch, res, sink.judged, sink.unjudged)
     });
     let consumed = std::rc::Rc::new(std::cell::Cell::new(0u64));
     let mut src = GenReader { len, pos: 0, max_read, consumed: consumed.clone() };
-    let mut sink = EncSink { ring: RingWriter(ring), written: 0, header, consumed: consumed.clone(), chunk, worst_lag: i64::MIN, first_write_seen_for: 0 };
+    let mut sink = EncSink { ring: RingWriter(ring), written: 0, header, consumed: consumed.clone(), worst_lag: i64::MIN, table, hdr: [0; 16], hdr_fill: 0, body_left: 0, consumed_at_record_start: 0, record: 0, pt_end: 0 };
     allocmon::begin();
     let eres: Result<(), String> = match mode {
         Mode::Key => key_encrypt(&mut src, &mut sink, &sk(&s), &pk(&s_pub), &pk(&r_pub), None, None, None, AsymFileFormat::V1).map_err(|e| e.to_string()),
@@ -230,11 +281,13 @@ fn stream(mode: Mode, len: u64, max_read: usize, seed: u64) -> StreamReading {
     };
     let em = allocmon::end();
     let enc_lag = sink.worst_lag;
+    let sink_records = sink.record;
     drop(sink); // closes the ring
-    let (dm, dec_lag, dec_written, mismatch, dres) = dec_thread.join().expect("decrypt thread");
+    let records = sink_records;
+    let (dm, dec_lag, dec_written, mismatch, dres, judged, unjudged) = dec_thread.join().expect("decrypt thread");
     let ok = eres.is_ok() && dres.is_ok() && dec_written == len && !mismatch;
-    let detail = format!("encrypt={:?} decrypt={:?} decrypted_bytes={} pattern_mismatch={}", eres, dres, dec_written, mismatch);
-    StreamReading { chunks: (len + chunk - 1) / chunk.max(1), enc: em, dec: dm, enc_lag, dec_lag, ok, detail }
+    let detail = format!("encrypt={:?} decrypt={:?} decrypted_bytes={} pattern_mismatch={} ciphertext_records={} records_judged_on_the_decrypt_side={}", eres, dres, dec_written, mismatch, records, judged);
+    StreamReading { chunks: (len + chunk - 1) / chunk.max(1), enc: em, dec: dm, enc_lag, dec_lag, ok, detail, records, unjudged }
 }
 
 fn in_process(ctx: &Ctx) {
@@ -263,6 +316,11 @@ fn in_process(ctx: &Ctx) {
                     ctx.violation(&format!("C11:{:?}:stream-round-trip-failed", mode), case());
                     continue;
                 }
+                if rd.unjudged > 0 {
+                    ctx.inconclusive(&format!("C11: the lag monitor lost track of {} record boundaries", rd.unjudged));
+                    continue;
+                }
+                ctx.seen_n("ciphertext records whose write/consume order was judged", rd.records);
                 if base.is_none() {
                     base = Some(rd.clone());
                 }
@@ -308,6 +366,10 @@ fn in_process(ctx: &Ctx) {
         let case = || json!({"mode": "chunk loops, chunk size 1", "chunks": n, "encrypt_peak": rd.enc.peak_live, "decrypt_peak": rd.dec.peak_live, "encrypt_lag": rd.enc_lag, "decrypt_lag": rd.dec_lag, "detail": rd.detail});
         if !rd.ok {
             ctx.violation("C11:small:stream-round-trip-failed", case());
+            continue;
+        }
+        if rd.unjudged > 0 {
+            ctx.inconclusive(&format!("C11: the lag monitor lost track of {} record boundaries", rd.unjudged));
             continue;
         }
         if base.is_none() {
